@@ -426,6 +426,20 @@ def rule_c14(ctx):
                                       "as_new_flow can panic in %s (%s)" % (info["body"].short, info["kind"]),
                                       loc=body_loc(info["body"], info["src"]))
 
+    # foreign callees documented to panic, anywhere under as_new_flow (the interpreter treats foreign calls as total)
+    from .panics import inventory, reachable_from, foreign_discharge
+    reach = [b for b in reachable_from(prog, [prog.find("Flow::<B, Redirect>::as_new_flow")]) if not b.is_derived]
+    nf = 0
+    for s in inventory(prog, reach):
+        if s.kind.startswith("foreign:"):
+            nf += 1
+            okf, whyf = foreign_discharge(prog, s)
+            if okf:
+                ctx.ok("R14.5", "site:" + s.key, "documented panic of the foreign callee excluded: " + whyf, loc=s.loc)
+            else:
+                ctx.reviewed_or_violation("R14.5", s.key, "following a redirect calls %s, which is documented to panic: %s "
+                                          "(a bad Location must be an error, never a panic)" % (s.kind[8:], whyf), loc=s.loc)
+
     # R14.2 / R14.4: effective URI accessor table and its consumers
     eff = _find_effective_uri(prog)
     if not ctx.require(eff, "R14.4", "effective-uri", "override-aware URI accessor (reads an Option<Uri> field, falls back to the request URI)"):
